@@ -159,6 +159,19 @@ func siteFile() (*gen.File, []string) {
 	return f, names
 }
 
+// knownSentinelBehaviour: the real bytes of job ji are exactly the intended document after the recorded eraser
+// behaviour (marker look-alikes in content are eaten together with the white space around them)
+func knownSentinelBehaviour(rc *RenderCase, ji int) bool {
+	j := rc.Jobs[ji]
+	got := realBytes(rc.Real[ji])
+	for _, sep := range []bool{false, true} {
+		if ks, _, ok := rt.IntentKnownSentinel(rc.File, j.Name, rc.Envs[j.Env], sep); ok && ks == got {
+			return true
+		}
+	}
+	return false
+}
+
 func siteOf(name string) (site, wrap) {
 	var si, ci int
 	fmt.Sscanf(name, "S%dC%d", &si, &ci)
@@ -248,8 +261,10 @@ func c02(c *Ctx) {
 			extra["name"] = j.Name
 			sig := "C02/" + kind + "/" + s.name
 			switch {
-			case strings.Contains(v, "☢"):
-				sig = "C02/sentinel-in-value" // one root cause: the eraser works on the finished buffer
+			case strings.Contains(v, "☢") && knownSentinelBehaviour(rc, ji):
+				// one root cause: the eraser works on the finished buffer. The recorded finding is that behaviour and
+				// nothing else: the bytes are what the documented rules give once the eraser has run over them
+				sig = "C02/sentinel-in-value"
 			case s.name == "attributes-map-value" && classify(rc, ji) == "attributes-command":
 				sig = "C02/attributes-separator" // the output is the intent minus the separating blank, and nothing else
 			}
